@@ -37,7 +37,19 @@ func cvOfType(t *cvt, name string) *cvv {
 		v := &cvv{k: 'a'}
 		v.keys = cvKeySets[herrors.VerifNdIntRange(name+"_keys", 0, 3)]
 		for _, key := range v.keys {
-			v.kids = append(v.kids, &cvv{k: 'i', i: herrors.VerifNdInt64(name + "_" + key)})
+			// the members of an any-object are dynamic: values of different kinds may sit under the same key
+			kind := 0
+			if key == "a" { // (one key carries the kind selector: the product over both keys adds paths, not cases)
+				kind = herrors.VerifNdIntRange(name+"_"+key+"_kind", 0, 2)
+			}
+			switch kind {
+			case 0:
+				v.kids = append(v.kids, &cvv{k: 'i', i: herrors.VerifNdInt64(name + "_" + key)})
+			case 1:
+				v.kids = append(v.kids, &cvv{k: 's', i: int64(herrors.VerifNdIntRange(name+"_"+key+"_s", 0, 1))})
+			default:
+				v.kids = append(v.kids, &cvv{k: 'b', b: herrors.VerifNdBool(name + "_" + key + "_b")})
+			}
 		}
 		return v
 	case 'l':
@@ -73,7 +85,7 @@ func (v *cvv) vm2() *vvalue.Value {
 	case 'a':
 		f := map[string]*vvalue.Value{}
 		for i, key := range v.keys {
-			f[key] = vvalue.NewValueInt(v.kids[i].i)
+			f[key] = v.kids[i].vm2()
 		}
 		return vvalue.NewValueAnyObject(f)
 	case 'S':
@@ -103,7 +115,7 @@ func (v *cvv) tree2() *ivalue.Value {
 	case 'a':
 		f := map[string]*ivalue.Value{}
 		for i, key := range v.keys {
-			f[key] = ivalue.NewValueInt(v.kids[i].i)
+			f[key] = v.kids[i].tree2()
 		}
 		return ivalue.NewValueAnyObject(f)
 	case 'S':
